@@ -900,6 +900,35 @@ def check_commute(case, acc):
             mf_fail(acc, case, f"MultiformOperator.compress/raises-{type(e).__name__}", shape_sig(case), {"exception": repr(e)[:300]})
             e.__traceback__ = None
             return
+    elif case.get("prep") == "scale":
+        # history: count-preserving in-place changes of the symbolic form (scaling; a term replaced by another), then compress():
+        # the array form must follow (the case's operands are what the objects hold AFTER this history)
+        if not all(any(w[n - 1] != "I" for w, _ in d_) for d_ in (case["a"], case["b"])):
+            # compress() without an explicit width shrinks an operator that does not touch the highest qubit (documented behaviour);
+            # operands of different widths are outside this history
+            acc.count("scale_history_skipped(operand does not touch the highest qubit)")
+            return
+        try:
+            a = mk_mf([[w, [c_[0] / 2.0, c_[1] / 2.0]] for w, c_ in case["a"]], n)
+            a *= 2.0
+            a.compress()
+            b = mk_mf([[w, [c_[0] * 4.0, c_[1] * 4.0]] for w, c_ in case["b"]], n)
+            b *= 0.25
+            b.compress()
+        except Exception as e:
+            mf_fail(acc, case, f"MultiformOperator.compress/raises-{type(e).__name__}", shape_sig(case), {"exception": repr(e)[:300]})
+            e.__traceback__ = None
+            return
+        acc.ev()
+        if ref_diff(dict(a.terms), ref_of_desc(case["a"]))[0] > 1e-12 or ref_diff(dict(b.terms), ref_of_desc(case["b"]))[0] > 1e-12:
+            acc.count("scale_history_symbolic_form_differs(skipped)")
+            return
+        if ref_diff(arrays_to_ref(a.integer, a.factors), ref_of_desc(case["a"]))[0] > 1e-12 or \
+                ref_diff(arrays_to_ref(b.integer, b.factors), ref_of_desc(case["b"]))[0] > 1e-12:
+            mf_fail(acc, case, "MultiformOperator.compress/array-form-stale-after-in-place-change", shape_sig(case),
+                    {"a.arrays": jterms(arrays_to_ref(a.integer, a.factors)), "a.terms": jterms(dict(a.terms)),
+                     "b.arrays": jterms(arrays_to_ref(b.integer, b.factors)), "b.terms": jterms(dict(b.terms))})
+            return
     elif case.get("prep") == "remove":
         # history: each operand was created with one more term, which was then taken out with remove_terms (int index at the
         # front for a, list index at the end for b): every array attribute must follow
@@ -1041,6 +1070,8 @@ def run_shard(sh):
                 MF_CHECK[kind](dict(case, prep="resize"), acc)
                 acc.transitions += 2
                 MF_CHECK[kind](dict(case, prep="remove"), acc)
+                acc.transitions += 4
+                MF_CHECK[kind](dict(case, prep="scale"), acc)
             if ia == p and len(acc.samples) < 1:
                 acc.sample(case, cap=1)
     return acc
